@@ -18,10 +18,19 @@ PROP = dict(
             14: ("ordinary-transfer-broken-while-disabled", "monitor"),
         }
     },
+    # Go-side monitors (ImplFailure records of harness/c14_helpers.go, reported by name):
+    #   keeper-reports-switches-other-than-the-committed-ones   what the erc20 keeper reports (GetParams, GetTokenPair)
+    #       differs from the last committed setting (parameter subspace / token-pair record read directly)
+    #   operation-on-a-discarded-branch-changed-the-observed-state   a ghost operation left a trace
+    #   switch-flip-not-committed   a governance flip (either route) did not reach the store
     level="proof",
     technique="Coq proof (gate theorems for every state, hence every step of every history under arbitrary switch flips; frozen bank side over disabled periods) "
               "+ exhaustive enumeration of the switch x kind x route x receiver cross product and random flip histories on the real erc20 keeper, bank and EVM, "
-              "evaluated by vm_compute (model comparison + gate monitors)",
+              "evaluated by vm_compute (model comparison + gate monitors on the COMMITTED switches, read from the stores themselves); "
+              "accounts are compared as accounts (the number read from all bytes of the address): 32-byte Cosmos accounts, among them aliases of the EVM-side party "
+              "(same last 20 bytes), on the Cosmos side of both messages with bank send-enabled on and off; switch flips by MsgUpdateParams and by the legacy "
+              "ParameterChangeProposal route, and ghost flips on discarded branches followed by conversions (Go-side monitors: the keeper reports the committed switches; "
+              "a discarded branch leaves no trace)",
     modelled=[
         "x/erc20/keeper/mint.go MintingEnabled (checks in code order)",
         "x/erc20/keeper/evm_hooks.go PostTxProcessing (early return / continue conditions)",
@@ -29,6 +38,7 @@ PROP = dict(
         "x/erc20/keeper/proposals.go ToggleConversion; x/erc20/types/params.go",
         "contracts/ERC20MinterBurnerDecimals.sol (honest ledger)",
         "x/bank BlockedAddr, IsSendEnabledCoin, SendCoinsFromModuleToAccount, MsgSend",
+        "x/params ParameterChangeProposal handler writing the erc20 subspace (exercised, not modelled: to the model it is a SetParams)",
     ],
     assumptions=[
         "pair ids denote registered pairs with pairwise distinct denominations and contracts (registry: property C15); contracts alive and not paused",
